@@ -156,7 +156,8 @@ def walk(lines, kinds, G):
             e = [parse_obs(x) for x in events(sm) if x.startswith("obs(")]
             grp.append(lines[i]); rs_all.append(rs)
             if kinds[i] == "part":
-                early += e
+                if "active=1" in rs:        # this slice left the continue unfinished: nothing may be delivered yet
+                    early += e
                 evs += e
                 i += 1
                 while i < len(lines) and kinds[i] == "midpoll":
@@ -345,7 +346,7 @@ def run(ctx):
     nm = 40 if ctx.quick() else 500
     sample = plain[: nm * 2 // 5] + slc[: nm - min(len(plain), nm * 2 // 5)]
     mcases = [dict(c, id="m:" + c["id"]) for c in sample]
-    cres = engine.compare(mcases, exe, sw)
+    cres = engine.compare(mcases, exe, sw, shard=(8 if ctx.quick() else 40))
     mism = [r for r in cres if r["status"] in ("mismatch", "model-error")]
     agree = sum(1 for r in cres if r["status"] == "agree")
     strict = []
